@@ -62,7 +62,15 @@ def blocks_strategy(draw, backend):
     mode = draw(st.sampled_from(["plain", "plain", "plain", "duplicate", "conflict", "unknown-field", "nameless"]))
     expect = None
     if mode == "duplicate" and blocks:
-        blocks.insert(draw(st.integers(0, len(blocks))), dict(draw(st.sampled_from(blocks))))
+        dup = dict(draw(st.sampled_from(blocks)))
+        if draw(st.booleans()):
+            # the same content spelled differently: a field without lines is the same as a field that is absent
+            for f in (FIELDS if backend == "atlas" else ["body_includes", "ctor_lines", "private_members"]):
+                if f in dup and dup[f] == [] and draw(st.booleans()):
+                    del dup[f]
+                elif f not in dup and draw(st.booleans()):
+                    dup[f] = []
+        blocks.insert(draw(st.integers(0, len(blocks))), dup)
     elif mode == "conflict" and blocks:
         c = dict(draw(st.sampled_from(blocks)))
         f = draw(st.sampled_from(FIELDS))
@@ -77,6 +85,16 @@ def blocks_strategy(draw, backend):
         b = {"metadata_type": "inject_code", "ctor_lines": ["int q = 1;"]}
         blocks.insert(draw(st.integers(0, len(blocks))), b)
         expect = "ValueError"
+    if mode in ("duplicate", "conflict") and blocks and draw(st.booleans()):
+        # another kind of metadata that happens to carry the name of a block, somewhere in the list (a helper that attaches a block AND a
+        # function / script of the same name on every use): names of blocks are compared among blocks only
+        nm = draw(st.sampled_from([b["name"] for b in blocks if "name" in b]))
+        other = draw(st.sampled_from([
+            {"metadata_type": "add_cpp_function", "name": nm, "include_files": [], "arguments": ["a"], "code": ["double result = a;"], "return_type": "double"},
+            {"metadata_type": "add_job_script", "name": nm, "script": ["# namesake script"], "depends_on": []},
+        ]))
+        blocks.insert(draw(st.integers(0, len(blocks))), other)
+        mode = mode + "+namesake"
     return {"backend": backend, "blocks": blocks, "expect": expect, "mode": mode}
 
 
@@ -93,9 +111,14 @@ def nonblank(text: str) -> List[str]:
 
 
 def distinct_blocks(blocks):
-    seen = []
+    """blocks with the same name and the same lines in every field count once (a field without lines = an absent field)"""
+    seen, keys = [], []
     for b in blocks:
-        if b not in seen:
+        if b.get("metadata_type") != "inject_code":
+            continue  # other metadata in the list (it is part of the block-free baseline too)
+        k = {f: v for f, v in b.items() if v != []}
+        if k not in keys:
+            keys.append(k)
             seen.append(b)
     return seen
 
@@ -171,7 +194,7 @@ def check(c, run_cpp=False):
         raise Violation("rejected", f"valid blocks were rejected: {type(e).__name__}: {str(e)[:160]}", rep)
     if c["expect"]:
         raise Violation("missing-error-" + c["mode"], f"{c['mode']} block set was accepted", rep)
-    basepkg = translate(build_query(backend, []), backend)
+    basepkg = translate(build_query(backend, [b for b in blocks if b.get("metadata_type") != "inject_code"]), backend)
     ren = Renaming()
     regions = REGIONS_ATLAS if backend == "atlas" else REGIONS_CMS
     for fname in sorted(pkg.files):
